@@ -47,3 +47,21 @@ func verifIOFault(doc []byte, run func(w io.Writer, r io.Reader) error) {
 	}
 	vReach("end")
 }
+
+// verifIOFaultTruncated: the document is cut at a symbolic position (so it ends inside every kind of token: tag,
+// attribute, comment, processing instruction, CDATA, string) and the writer fails from its first or second call on:
+// every end-of-input path must still report the failing writer.
+func verifIOFaultTruncated(doc []byte, run func(w io.Writer, r io.Reader) error) {
+	cut := vConcrete(vInt("cut", 0, len(doc)))
+	doc = doc[:cut]
+	w := &vWriter{FailFrom: 1 + vChoice("failfrom", 2)}
+	rd := &vFailReader{b: doc, Chunk: 0, FailAfter: -1, Err: vErrRead}
+	err := run(w, rd)
+	vReach("after-call")
+	vOutput("out", w.buf)
+	vOutputBool("err", err != nil)
+	if w.failed || w.FailFrom == 1 {
+		vAssert(err != nil, "writer failed (or fails from the first call): the call reports an error")
+	}
+	vReach("end")
+}
